@@ -1159,3 +1159,34 @@ Proof.
   pose proof gen_api_effects as [H1 [H2 [H3 [H4 [H5 [H6 [H7 [H8 H9]]]]]]]].
   rewrite H1, H2, H3, H4, H5, H6, H7, H8, H9. repeat split; reflexivity.
 Qed.
+
+(** ** The priority function as the application wires it: the SDK ante handler gets
+    [TxFeeChecker: palomamodule.TxFeeSkipper], which gives EVERY transaction the same CheckTx priority
+    (translated: [Gen.C19.app_check_tx_priority]); so the side condition of [priority_classes]
+    ("CheckTx priority below MaxInt64 - 3") is discharged for the application *)
+Lemma app_priority_classes_proof :
+  Gen.C19.app_tx_fee_checker = "palomamodule.TxFeeSkipper"%string /\
+  Gen.C19.app_check_tx_priority < Gen.C19.max_int64 - 3 /\ min_value < Gen.C19.app_check_tx_priority /\
+  forall us1 us2 i, tx_class us1 = Some i ->
+    match tx_class us2 with
+    | Some j => ((i < j)%nat -> tx_priority us2 Gen.C19.app_check_tx_priority < tx_priority us1 Gen.C19.app_check_tx_priority) /\
+                (i = j -> tx_priority us2 Gen.C19.app_check_tx_priority = tx_priority us1 Gen.C19.app_check_tx_priority)
+    | None => tx_priority us2 Gen.C19.app_check_tx_priority = Gen.C19.app_check_tx_priority /\
+              tx_priority us2 Gen.C19.app_check_tx_priority < tx_priority us1 Gen.C19.app_check_tx_priority
+    end.
+Proof.
+  split; [reflexivity|].
+  assert (Hlt : Gen.C19.app_check_tx_priority < Gen.C19.max_int64 - 3) by (vm_compute; reflexivity).
+  split; [exact Hlt|]. split; [vm_compute; reflexivity|].
+  intros us1 us2 i Hi. pose proof (proj2 priority_classes_proof us1 Gen.C19.app_check_tx_priority us2 Gen.C19.app_check_tx_priority i Hi) as H.
+  destruct (tx_class us2) eqn:Ec; [exact H|]. split; [|exact (H Hlt)].
+  unfold tx_class in Ec. unfold tx_priority.
+  destruct us2 as [|u [|u' l]]; cbn [List.length]; try reflexivity.
+  - destruct (Z.of_nat 1 =? Gen.C19.single_message_len); [|reflexivity].
+    assert (El : forall tbl, prefix_index tbl u = None -> lookup_prefix tbl u = None).
+    { induction tbl as [|[pre v] r IH]; simpl; [reflexivity|]. destruct (String.prefix pre u); [discriminate|].
+      destruct (prefix_index r u); [discriminate|]. intros _. now apply IH. }
+    now rewrite (El _ Ec).
+  - destruct (Z.eqb_spec (Z.of_nat (S (S (List.length l)))) Gen.C19.single_message_len) as [E|]; [|reflexivity].
+    exfalso. unfold Gen.C19.single_message_len in E. lia.
+Qed.
